@@ -77,8 +77,14 @@ def run(ctx):
                 return int(v)
             return v
         pre = rng.random()
-        if pre < 0.25:
+        if pre < 0.15:
             ops.append(["prefill", json.dumps(init, separators=(",", ":")).encode()])
+        elif pre < 0.25:
+            # the file as another tool may have written it: raw UTF-8 instead of \\u escapes (lone surrogates cannot be written that way)
+            try:
+                ops += [["prefill", json.dumps(init, ensure_ascii=False, indent=1).encode("utf-8")], ["load"]]
+            except UnicodeEncodeError:
+                ops.append(["prefill", json.dumps(init, separators=(",", ":")).encode()])
         elif pre < 0.5:
             other = {"signatures": init["signatures"], "signed": twin(init["signed"])}
             ops += [["replace", other], ["write"], ["replace", init]]
@@ -96,6 +102,18 @@ def run(ctx):
                 ops.append(rng.choice(queries))
         ops = [rng.choice(queries)] + ops + [["write"], ["load"]] + queries
         cases.append({"w": wire.case("persist_history", init, ops), "meta": {"ops": [o[0] for o in ops]}})
+
+    # targeted: a file another tool wrote in raw UTF-8 (non-ASCII text in keys and values), loaded, verified, stored again
+    for i in range(6):
+        pl = {"名前": "日本語 %d" % i, "é": ["ü", {"ключ": "значение"}], "n": i}
+        sigs = {PUBHEX[0]: E.raw_sig(0, pl), PUBHEX[1]: E.gpg_sig(1, pl)}
+        init = {"signatures": sigs, "signed": pl}
+        raw = json.dumps(init, ensure_ascii=False, indent=[None, 1, 4][i % 3]).encode("utf-8")
+        if i == 5:
+            raw = b"\xef\xbb\xbf" + raw          # with a byte-order mark
+        q = [["verify", [PUBHEX[0], PUBHEX[1]], 2, False], ["verify", [PUBHEX[1]], 1, True]]
+        ops = [["prefill", raw], ["load"]] + q + [["sign", SEEDS[2]], ["write"], ["load"]] + q
+        cases.insert(i, {"w": wire.case("persist_history", {"signatures": {}, "signed": pl}, ops), "meta": {"ops": [o[0] for o in ops]}})
 
     def rel(c, io, mo):
         return None if io == mo else "history differs: implementation %s ... model %s ..." % (io[:120], mo[:120])
@@ -145,5 +163,8 @@ def run(ctx):
         return None
     core.run_stream(ctx, core.Stream("histories of write / load / add-signature / verify (verify_signable, verify_root, verify_delegation) over real files; %d histories, up to %d steps; payloads with floats, non-ASCII, nesting; shuffled key orders"
                                      % (nh, maxlen), cases, rel, oracle, nontrivial=lambda c, i, m: "sign" in c["meta"]["ops"] or "verify" in c["meta"]["ops"]))
+    # the same histories in a process whose locale is not UTF-8 (LC_ALL=C, UTF-8 mode off): what a file means must not depend on it
+    core.run_stream(ctx, core.Stream("the same histories under LC_ALL=C with PYTHONUTF8=0 (files in raw UTF-8 from other tools included)", cases[: (30 if ctx.quick else 300)], rel, oracle,
+                                     env={"LC_ALL": "C", "LANG": "C", "PYTHONUTF8": "0", "PYTHONIOENCODING": "utf-8"}))
     ctx.assumptions = ["theorem for the verdict invariance is proved for verify_signable (the other two verifiers call it after the schema check; their invariance is exercised by the histories)",
                        "NaN compares equal as a JSON token; the harness never uses Python == on floats"]
